@@ -21,7 +21,7 @@ def op_brief(op):
                   "funds": op.get("funds"), "sem": dict((k, v) for k, v in op.get("sem", {}).items())})
 
 
-def run_world(acc, srv, key, monitor_factory, weights, nsteps, world_kw=None, hist_kw=None, pre_hook=None):
+def run_world(acc, srv, key, monitor_factory, weights, nsteps, world_kw=None, hist_kw=None, pre_hook=None, post_hook=None):
     rng = sub_rng(*key)
     world = World(srv, rng, **(world_kw or {}))
     world.key = key
@@ -49,6 +49,12 @@ def run_world(acc, srv, key, monitor_factory, weights, nsteps, world_kw=None, hi
         recent.append(st)
         if len(recent) > 80:
             recent.pop(0)
+    if post_hook:
+        # exhaustive walks in the state the history ended in (finite spaces enumerated, not sampled)
+        for op, quotes in post_hook(world, gen):
+            st = world.step(op, quotes)
+            for m in mons:
+                m.on_step(st)
     for m in mons:
         if hasattr(m, "on_end"):
             m.on_end()
@@ -97,7 +103,7 @@ def canary_floor(acc, names):
 
 
 def run_worlds(acc, prop, tier, seed, shard, nshards, monitor_factory, weights, n_worlds, steps,
-               world_kw=None, hist_kw=None, pre_hook=None, corruptions=None):
+               world_kw=None, hist_kw=None, pre_hook=None, corruptions=None, post_hook=None, post_every=1):
     srv = Server()
     try:
         for wi in range(n_worlds):
@@ -107,7 +113,10 @@ def run_worlds(acc, prop, tier, seed, shard, nshards, monitor_factory, weights, 
             key = (seed, prop, tier, shard, wi)
             rng = sub_rng("len", *key)
             n = rng.randrange(steps[0], steps[1] + 1)
-            world = run_world(acc, srv, key, monitor_factory, weights, n, world_kw, hist_kw, pre_hook)
+            world = run_world(acc, srv, key, monitor_factory, weights, n, world_kw, hist_kw, pre_hook,
+                              post_hook if (post_hook and wi % post_every == 0) else None)
+            if post_hook and wi % post_every == 0:
+                acc.count("worlds_with_exhaustive_walk")
             acc.count("worlds")
             if corruptions:
                 canary_run(acc, world, monitor_factory, corruptions)
